@@ -24,8 +24,10 @@ RecorderMC.tla (exhaustive bounded run trees), RecorderJudge.tla (validation of 
 
 Stand-alone reproduction of one scenario (no TLC):  PYTHONPATH=/verif/harness /venv/bin/python -m vf.drivers.c17 <seed> [kind]
 """
+import contextlib
 import copy
 import fnmatch
+import io
 import json
 import os
 import random
@@ -34,7 +36,6 @@ import traceback
 
 import numpy as np
 
-from .. import modelgen as mg
 from .. import ombuild as ob
 from ..sysdriver import gen_model
 from ..tlc import MachineryError
@@ -44,7 +45,7 @@ PAR = int(os.environ.get('VERIF_C17_PAR', '16'))
 TLC_WORKERS = int(os.environ.get('VERIF_C17_TLC_WORKERS', '16'))
 
 OPTS = {'storage': ['dense', 'rowscols', 'csc'], 'cyc_frac': .55, 'voi_scaling': True, 'voi_indices': True,
-        'implicit': .2}
+        'implicit': .2, 'shared': False}
 KINDS = ['model', 'model', 'doe', 'doe', 'slsqp', 'model12', 'doe12']
 
 
@@ -65,6 +66,7 @@ class Observation:
         self.labels = {}       # id(requester) -> label
         self.files = {}        # id(recorder) -> file label
         self.pending = None
+        self.cur_snap = None
         self.scaled = 0        # depth of System.run_solve_nonlinear on the root (vectors in scaled state)
 
     def label(self, obj):
@@ -128,10 +130,10 @@ def install():
             ob_.pending = ob_.label(self.recording_requester())
         return o_enter(self)
 
-    def record_iteration(self, recording_requester, data, metadata, **kwargs):
-        ob_ = Obs.active
-        if ob_ is None or id(self) not in ob_.files:
-            return o_rec(self, recording_requester, data, metadata, **kwargs)
+    def take_snapshot(ob_):
+        """physical values of every input, output and residual of the model, read from copies of the root vectors.
+        Taken on entry to the REQUESTER's record_iteration: there the scaling state is known (scaled inside
+        run_solve_nonlinear of the model, physical outside), whatever the recording code does afterwards."""
         m = ob_.prob.model
         snap = {}
         in_scaled = ob_.scaled > 0
@@ -139,15 +141,34 @@ def install():
                                ('res', m._residuals, m._has_resid_scaling)):
             raw = vec.asarray(copy=True)
             if in_scaled and has and vec._scaling is not None:
-                if getattr(vec, '_has_solver_ref', False):
-                    raw = raw * vec._nlvec._scaling[0]
-                else:
-                    scaler, adder = vec._scaling
-                    raw = raw * scaler
-                    if adder is not None:
-                        raw = raw + adder
+                scaler, adder = vec._scaling
+                raw = raw * scaler
+                if adder is not None:
+                    raw = raw + adder
             snap[kind] = _vec_values(vec, raw)
         snap['scaled_state'] = bool(in_scaled and (m._has_output_scaling or m._has_resid_scaling))
+        return snap
+
+    def requester_wrapper(orig):
+        def wrapped(self, *args, **kwargs):
+            ob_ = Obs.active
+            if ob_ is None or id(self) not in ob_.labels or not self._rec_mgr._recorders:
+                return orig(self, *args, **kwargs)
+            old = ob_.cur_snap
+            ob_.cur_snap = take_snapshot(ob_)
+            try:
+                return orig(self, *args, **kwargs)
+            finally:
+                ob_.cur_snap = old
+        return wrapped
+
+    def record_iteration(self, recording_requester, data, metadata, **kwargs):
+        ob_ = Obs.active
+        if ob_ is None or id(self) not in ob_.files:
+            return o_rec(self, recording_requester, data, metadata, **kwargs)
+        snap = ob_.cur_snap
+        if snap is None:
+            raise RuntimeError('C17 harness: record_iteration reached a recorder outside the wrapped requester methods')
         req = ob_.label(recording_requester)
         if isinstance(recording_requester, Problem):
             coord = metadata['name']
@@ -174,6 +195,12 @@ def install():
     Recording.__enter__ = enter
     CaseRecorder.record_iteration = record_iteration
     System.run_solve_nonlinear = run_solve_nonlinear
+    from openmdao.core.driver import Driver
+    from openmdao.solvers.solver import Solver
+    System.record_iteration = requester_wrapper(System.record_iteration)
+    Solver.record_iteration = requester_wrapper(Solver.record_iteration)
+    Driver.record_iteration = requester_wrapper(Driver.record_iteration)
+    Problem.record = requester_wrapper(Problem.record)
 
 
 # ------------------------------------------------------------------------------------------------------------
@@ -237,7 +264,9 @@ def plan(seed, kind=None, quick=True):
     scaling = rng0.random() < .25
     opts = dict(OPTS, scaling=scaling)
     if kind in ('doe', 'slsqp', 'doe12'):
-        opts['voi_indices'] = rng0.random() < .5
+        # (DOE values for design variables with multi-dimensional indices and responses with repeated indices under an
+        #  optimizer fail inside the drivers / total-Jacobian code: subjects of other properties)
+        opts['voi_indices'] = False
     md, ref, rng = gen_model(seed, opts)
     if md is None:
         return None
@@ -252,20 +281,24 @@ def plan(seed, kind=None, quick=True):
             if sv['nl']['name'] == 'newton' and rng.random() < .4:
                 sv['nl']['opts']['solve_subsystems'] = True
     sc = {'seed': seed, 'kind': kind, 'scaling': scaling, 'md': md}
-    # responses: first one is made the objective for optimizers (scalar via index)
+    # an objective (scalar: entry 0 of a 1-d output) - always for the optimizer, sometimes otherwise
+    def make_objective():
+        cand = [o for o in md['outs'] if md['comps'][o['comp']]['kind'] != 'ivc' and len(o['shape']) == 1]
+        if not cand:
+            return False
+        o = rng.choice(cand)
+        md['responses'] = [r for r in md['responses'] if r['oid'] != o['id']]
+        md['responses'].insert(0, {'name': None, 'oid': o['id'], 'indices_term': None, 'flat_indices': False, 'type': 'obj',
+                                   'index': 0, 'scaler': None, 'adder': None, 'ref': None, 'ref0': None})
+        return True
     if kind == 'slsqp':
-        r0 = md['responses'][0]
-        md['responses'][0] = {'name': None, 'oid': r0['oid'], 'indices_term': None, 'flat_indices': False, 'type': 'obj',
-                              'index': 0, 'scaler': r0.get('scaler'), 'adder': r0.get('adder'), 'ref': r0.get('ref'),
-                              'ref0': r0.get('ref0')}
+        if not make_objective():
+            return None
         for dv in md['desvars']:
             dv['lower'], dv['upper'] = -4, 4
             dv['scaler'] = dv['adder'] = dv['ref'] = dv['ref0'] = None      # (negative scalers with bounds: C21's subject)
-    elif rng.random() < .5 and md['responses']:
-        r0 = md['responses'][0]
-        md['responses'][0] = {'name': None, 'oid': r0['oid'], 'indices_term': None, 'flat_indices': False, 'type': 'obj',
-                              'index': 0, 'scaler': r0.get('scaler'), 'adder': r0.get('adder'), 'ref': r0.get('ref'),
-                              'ref0': r0.get('ref0')}
+    elif rng.random() < .5:
+        make_objective()
     # requesters available
     groups = group_paths(md)
     comps = comp_paths(md)
@@ -383,7 +416,8 @@ def execute(sc, work):
                     if 'points' in run and k > 0:
                         p.driver.options['generator'] = om.ListGenerator(
                             [[(n, np.array(v, dtype=float)) for n, v in pt] for pt in run['points']])
-                    p.run_driver(case_prefix=run['prefix'], reset_iter_counts=run['reset'])
+                    with contextlib.redirect_stdout(io.StringIO()):          # (the optimizer's exit message)
+                        p.run_driver(case_prefix=run['prefix'], reset_iter_counts=run['reset'])
             except AnalysisError:
                 status = 'noconv'
                 break
@@ -437,6 +471,9 @@ def md_names(md):
             top = '.'.join(gparts[:len(gparts) - (len(pl) - 1)])
             name = pl[-1]['alias']
             pn = (top + '.' if top else '') + name       # promoted up to (and including) the group `top`
+        elif i.get('how') == 'promote_shared':
+            g = md['comps'][i['comp']]['group']
+            pn = (g + '.' if g else '') + i['share']['alias']
         else:
             pn = t
         pin[pn] = ob.out_path(md, i['src'])
@@ -450,7 +487,6 @@ def md_names(md):
 # reader queries
 # ------------------------------------------------------------------------------------------------------------
 def _ans(fn):
-    import collections
     try:
         r = fn()
     except Exception as e:        # the reader's own failures are answers, judged like any other
@@ -599,6 +635,10 @@ def build_trace(sc, obs, lab):
     f = obs['files'][lab]
     att = sc['files'][lab]
     names = md_names(md)
+    if names['pin'] != obs['names']['pin']:
+        # promoted input names are the one part of the name sets this module re-derives from the generator's promotion
+        # records; a promotion form it does not know falls back to the model's own resolver (counted in the evidence)
+        names['pin'] = dict(obs['names']['pin'])
     ev, notes = fold_events(obs['events'], lab)
     reqs = sorted(set(['problem', 'driver'] + [e['req'] for e in ev if e['e'] == 'enter' and e['req']] + list(att)))
     opts, vs, pats, universe = {}, {}, set(), set()
@@ -643,7 +683,25 @@ def build_trace(sc, obs, lab):
     cases = [{'name': c.get('name', ''), 'source': c.get('source', 'ERROR:' + c.get('error', '')), 'counter': c.get('counter', -1),
               'inp': c.get('inp', []), 'out': c.get('out', []), 'res': c.get('res', [])} for c in f['cases']]
     return {'att': list(att), 'reqs': reqs, 'ev': ev, 'q': f['queries'], 'all': f['all'], 'sources': f['sources'],
-            'cases': cases, 'srcvars': srcvars, 'opts': opts, 'vars': vs, 'match': match}, notes
+            'cases': cases, 'srcvars': srcvars, 'opts': opts, 'vars': vs, 'match': match, 'flags': trace_flags(ev, att)}, notes
+
+
+def trace_flags(ev, att):
+    """structure of the run that the known-finding predicates refer to"""
+    stack = []
+    gap = nested_nl = False
+    for e in ev:
+        if e['e'] == 'enter':
+            if e['req'] and stack and stack[-1] == e['req'] and e['req'].startswith('nl:'):
+                nested_nl = nested_nl or e['req'] in att          # NonlinearBlockJac|k|NonlinearBlockJac|0, Newton_subsolve, Broyden
+            if e['req'] in att:
+                owners = [r for r in stack if r]
+                if owners and owners[-1] not in att and any(r in att for r in owners):
+                    gap = True                                    # a recorded frame, an unrecorded level, a recorded frame
+            stack.append(e['req'])
+        elif e['e'] == 'exit':
+            stack.pop()
+    return {'gap': gap, 'nested_nl': nested_nl}
 
 
 def compare_values(obs, lab):
@@ -709,8 +767,10 @@ def _worker(args):
                 except Exception as e:
                     r['exc'] = 'harness: %s: %s' % (type(e).__name__, e)
                     r['tb'] = traceback.format_exc()[-2000:]
-            r['names_ok'] = md_names(r['sc']['md']) == o['names']
-            r['names'] = (md_names(r['sc']['md']), o['names']) if not r['names_ok'] else None
+            mdn = md_names(r['sc']['md'])
+            r['names_ok'] = all(mdn[k] == o['names'][k] for k in mdn if k != 'pin')
+            r['pin_ok'] = mdn['pin'] == o['names']['pin']
+            r['names'] = (mdn, o['names']) if not r['names_ok'] else None
             r['nev'] = len(o['events'])
             r['status'] = o['status']
             r['drv'] = o['driver_name']
@@ -736,14 +796,14 @@ MC_INV = ['TypeOK', 'CounterOK', 'Unique', 'NoRecRule', 'Order', 'Descendants', 
 def model_check(ctx, quick):
     cfg = MC_BASE % ('ConfigsQuick' if quick else 'ConfigsAll', '= 0') + ''.join('INVARIANT %s\n' % i for i in MC_INV) + \
         'PROPERTY NoRecFrames\n'
-    ctx.tlc_check('mech/RecorderMC', ctx.write_cfg('RecorderMC.cfg', cfg), workers=TLC_WORKERS, timeout=3000)
+    ctx.tlc_check('mech/RecorderMC', ctx.write_cfg('RecorderMC.cfg', cfg), workers=max(2, TLC_WORKERS // 2), timeout=3000)
     ctx.require_actions(['DriverBegin', 'ModelBegin', 'ProblemRecord', 'DriverIter', 'Totals', 'RootSolve', 'RootIter',
                          'RunApply', 'SubSolve', 'SubIter', 'Leaf'])
     # non-vacuity: the broken window must be refuted, and so must the two non-theorems of the transcribed reader
     refuted = {}
     for name, adj, inv in (('window+1', '= 1', 'Descendants'), ('window-1', '<- MinusOne', 'Descendants'),
                            ('nested-across-unrecorded-level', '= 0', 'Nested'), ('coordinate-without-recurse', '= 0', 'CoordPlain')):
-        cfg = MC_BASE % ('ConfigsQuick', adj) + 'INVARIANT %s\n' % inv
+        cfg = MC_BASE % ('ConfigsRefute', adj) + 'INVARIANT %s\n' % inv
         r = ctx.tlc_run('mech/RecorderMC', ctx.write_cfg('RecorderMC_%s.cfg' % name.replace('+', 'p'), cfg), workers=min(TLC_WORKERS, 4),
                         timeout=1200)
         if inv not in r.violated:
@@ -762,12 +822,16 @@ def classify_query(q, exp):
 
 
 def run(ctx):
+    import concurrent.futures
     quick = ctx.tier == 'quick'
-    refuted = model_check(ctx, quick)
-    n = 64 if quick else 900
+    n = int(os.environ.get('VERIF_C17_N', 0)) or (64 if quick else 480)
     base = 17000003 * (1 + ctx.seed % 1000)
     seeds = list(range(base, base + n))
-    res = [r for rs in pmap(_worker, [(c, ctx.work) for c in split(seeds, PAR * 2) if c], PAR) for r in rs]
+    # TLC on the specification runs in a background thread while the scenarios execute in the process pool
+    with concurrent.futures.ThreadPoolExecutor(1) as ex:
+        fut = ex.submit(model_check, ctx, quick)
+        res = [r for rs in pmap(_worker, [(c, ctx.work) for c in split(seeds, PAR * 2) if c], PAR) for r in rs]
+        refuted = fut.result()
     res.sort(key=lambda r: r['seed'])
     ctx.register_predicates(PREDICATES)
     traces, owners = [], []
@@ -786,6 +850,8 @@ def run(ctx):
             raise MachineryError('name sets derived from the model description differ from the model: seed %d: %s' % (r['seed'], r['names']))
         if r['status'] != 'ok':
             skipped[r['status']] = skipped.get(r['status'], 0) + 1
+        if not r.get('pin_ok', True):
+            skipped['promoted-input-names-from-resolver'] = skipped.get('promoted-input-names-from-resolver', 0) + 1
         for lab, t in r['traces'].items():
             if t is None:
                 continue
@@ -813,6 +879,10 @@ def run(ctx):
         nev += len(tr['ev'])
         kinds[sc['kind']] = kinds.get(sc['kind'], 0) + 1
         ctx.note_nontrivial((r['seed'], lab))
+        if vd['step'] == 'number-of-cases':
+            ctx.violation(scen, {'cases in the file (execution order)': vd['n']}, {'list_cases()': len(tr['all']), 'tail': tr['all'][-3:]},
+                          'order: list_cases() does not return every recorded case', info={'class': 'order'})
+            continue
         if vd['step'] != 'done':
             bad = tr['ev'][e['l'] - 2] if 2 <= e['l'] <= len(tr['ev']) + 1 else None
             ctx.violation(scen, 'event stream accepted by Recorder.tla', {'verdict': vd, 'event': bad, 'index': e['l'] - 1},
@@ -834,7 +904,7 @@ def run(ctx):
                 continue
             seen.add(cls)
             ctx.violation(dict(scen, query={'source': q['src'], 'recurse': q['rec'], 'flat': q['flat']}), _short(b['exp']), _short(q['ans']),
-                          'list_cases: ' + cls, info={'class': cls, 'query': q, 'att': tr['att']})
+                          'list_cases: ' + cls, info=dict(tr['flags'], **{'class': cls, 'query': q, 'att': tr['att']}))
         seen = set()
         for b in vd['badc']:
             c = tr['cases'][b['c'] - 1]
@@ -846,7 +916,7 @@ def run(ctx):
                           {'inputs': b['inp'], 'outputs': b['out'], 'residuals': b['res'], 'source': None},
                           {'inputs': c['inp'], 'outputs': c['out'], 'residuals': c['res'], 'source': c['source']},
                           'case %s: %s recorder' % (b['what'], b['req'].split(':')[0]),
-                          info={'class': 'case-' + b['what'], 'req': b['req'], 'opts': tr['opts'].get(b['req'])})
+                          info=dict(tr['flags'], **{'class': 'case-' + b['what'], 'req': b['req'], 'opts': tr['opts'].get(b['req'])}))
         for b in vd['bads'][:1]:
             sv = tr['srcvars'][b['s'] - 1]
             ctx.violation(dict(scen, source=sv['src']), 'the selected variables of the source (absolute names)', sv,
@@ -868,6 +938,10 @@ def run(ctx):
                               {'value': b.get('live')}, {'value': b.get('recorded'), 'what': b.get('what')},
                               'value: recorded %s differs from the model' % b.get('kind', 'case'),
                               info={'class': 'value', 'scaled_state': b.get('scaled_state'), 'req': b.get('req'), 'scaling': sc['scaling']})
+    classes = {}
+    for clause, _ in ctx.violations:
+        classes[clause] = classes.get(clause, 0) + 1
+    ctx.extra['violation_classes'] = classes
     ctx.impl = len(traces)
     ctx.evaluations = nq + ncases + nval
     ctx.exhaustive = False
@@ -907,7 +981,27 @@ def slim(sc):
             'runs': [{k: v for k, v in r.items() if k != 'points'} for r in sc['runs']], 'model': sc['md']}
 
 
-PREDICATES = {}
+def _cls(info):
+    return (info or {}).get('class')
+
+
+PREDICATES = {
+    # system / solver recorders write the solver-SCALED values of outputs and residuals (ref/ref0/res_ref)
+    'C17-scaled-values': lambda sc, info: _cls(info) == 'value' and bool(info.get('scaled_state')) and
+    (info.get('req') or '').split(':')[0] in ('sys', 'nl', 'ls'),
+    # the reader derives the source of a solver case from the shape of its coordinate: nested frames of one solver
+    # (NonlinearBlockJac, Newton_subsolve, Broyden) look like a line search
+    'C17-solver-source-parse': lambda sc, info: bool(info.get('nested_nl')) and
+    ((_cls(info) == 'case-source' and (info.get('req') or '').startswith('nl:')) or
+     (_cls(info) in ('listing', 'nested-listing') and 'nonlinear_solver' in info['query']['src'])),
+    # nested listing drops the descendants below a level that was not recorded
+    'C17-nested-unrecorded-level': lambda sc, info: _cls(info) == 'nested-listing' and bool(info.get('gap')),
+    # list_cases(<coordinate>, recurse=False) raises UnboundLocalError
+    'C17-coordinate-no-recurse': lambda sc, info: _cls(info) == 'coordinate-without-recurse',
+    # several requesters in one file: the file-wide promoted names are those of the requester started last
+    'C17-prom-name-collision': lambda sc, info: _cls(info) == 'source-vars' and
+    any('COLLISION' in n for k in ('out', 'res') for n in info['sv'][k]),
+}
 
 
 if __name__ == '__main__':
